@@ -346,6 +346,10 @@ def upd_mech(d, other, model, got):
     return "update_recursively-differs-from-model"
 
 
+_worker_seen = {}
+PER_WORKER = 4
+
+
 class Rep(object):
     """Per-case reporter: one witness per mechanism, cheap counting."""
 
@@ -355,10 +359,16 @@ class Rep(object):
         self.evals = 0
 
     def fail(self, mech, msg):
+        # one witness per mechanism and case, at most PER_WORKER per worker process (the
+        # worker keeps only its first 200 violation records: every mechanism must fit in)
         n = self.seen.get(mech, 0)
         self.seen[mech] = n + 1
         if n == 0:
-            self.obs.fail(mech, msg)
+            _worker_seen[mech] = _worker_seen.get(mech, 0) + 1
+            if _worker_seen[mech] <= PER_WORKER:
+                self.obs.fail(mech, msg)
+            else:
+                self.obs.count("violating_cases_folded")
 
     def close(self):
         from rv.monitors import contracts as C
